@@ -10,12 +10,12 @@ Section Top.
   Hypothesis Hcf : class_free_schema S = true.
 
   (* lowering of a well-typed literal outside the panic classes succeeds with the value the IDL gives it *)
-  Theorem literal_meaning_n F t l v :
-    lit_value_n parse_f64 S F (erase t) l = Some v -> pclass_top S l (item_cty t) = None ->
-    exists c, default_val_lit_n parse_f64 S F t l = LOk (v, c).
+  Theorem literal_meaning_n t l v :
+    lit_value_n parse_f64 S (efuel S) (erase t) l = Some v -> pclass_top S l (item_cty t) = None ->
+    exists c, default_val_lit parse_f64 S t l = LOk (v, c).
   Proof.
-    intros Hv Hp. destruct (ev_sv parse_f64 S Hcf F) as [HC HD].
-    exact (top_good parse_f64 S _ _ (evi parse_f64 S F) _ _ HC HD l t v Hv Hp).
+    intros Hv Hp. destruct (ev_sv parse_f64 S Hcf (efuel S) (le_n _)) as (HC & HD & HI).
+    exact (top_good parse_f64 S (efuel S) HC HD HI l t v Hv Hp).
   Qed.
 
   Theorem literal_meaning t l :
@@ -24,7 +24,7 @@ Section Top.
   Proof.
     unfold well_typed_lit, well_typed_lit_n, lit_value_top. intros Hw Hp.
     destruct (lit_value_n parse_f64 S (efuel S) (erase t) l) as [v|] eqn:Ev; [|discriminate].
-    destruct (literal_meaning_n _ _ _ _ Ev Hp) as (c & Hc). exists v, c. split; [exact Hc|reflexivity].
+    destruct (literal_meaning_n _ _ _ Ev Hp) as (c & Hc). exists v, c. split; [exact Hc|reflexivity].
   Qed.
 
   (* totality: on a well-typed literal the lowering neither errs nor panics outside the classes *)
@@ -66,7 +66,7 @@ Section Top.
     specialize (Hwt _ (nth_error_In _ _ Hn)). cbn in Hwt. rewrite forallb_forall in Hwt. specialize (Hwt _ Hin).
     rewrite Hd in Hwt. unfold well_typed_lit, well_typed_lit_n in Hwt. fold F in Hwt.
     destruct (lit_value_n parse_f64 S F (erase (lf_ty f)) l) as [v|] eqn:Ev; [|discriminate].
-    destruct (literal_meaning_n F _ _ _ Ev (field_class_free S Hcf _ _ _ _ _ _ Hn Hin Hd)) as (c & Hc).
+    destruct (literal_meaning_n _ _ _ Ev (field_class_free S Hcf _ _ _ _ _ _ Hn Hin Hd)) as (c & Hc).
     exists v, c. split; [exact Hc|reflexivity].
   Qed.
 
@@ -207,8 +207,9 @@ Definition W_arc : lschema :=
        [(RFastStr, LString [x6b])].
 Example arc_default_cases :
   well_typed_lit pf0 W_arc (erase (RArc (RPath 0))) (LMap [(LString [x6e], LInt 1)]) = true /\
-  pclass_top W_arc (LMap [(LString [x6e], LInt 1)]) (item_cty (RArc (RPath 0))) = Some PCNoArm /\
   if arc_ok then
+    pclass_top W_arc (LMap [(LString [x6e], LInt 1)]) (item_cty (RArc (RPath 0))) = None /\
+    pclass_top W_arc (LConst 0) (item_cty (RArc RString)) = None /\
     default_val_lit pf0 W_arc (RArc (RPath 0)) (LMap [(LString [x6e], LInt 1)]) = LOk (GStruct [(2, GI32 1)] [], false) /\
     default_val_lit pf0 W_arc (RArc RString) (LString [x61]) = LOk (GBytes [x61], false) /\
     default_val_lit pf0 W_arc (RArc RString) (LConst 0) = LOk (GBytes [x6b], false) /\
@@ -216,6 +217,7 @@ Example arc_default_cases :
     default_val_lit pf0 W_arc (RMap RFastStr (RArc (RPath 0))) (LMap [(LString [x61], LMap [(LString [x6e], LInt 5)])])
       = LOk (GMap [(GBytes [x61], GStruct [(2, GI32 5)] [])], false)
   else
+    pclass_top W_arc (LMap [(LString [x6e], LInt 1)]) (item_cty (RArc (RPath 0))) = Some PCNoArm /\
     default_val_lit pf0 W_arc (RArc (RPath 0)) (LMap [(LString [x6e], LInt 1)]) = LPanic PUnexpectedLiteral /\
     default_val_lit pf0 W_arc (RArc RString) (LString [x61]) = LPanic PUnexpectedLiteral /\
     default_val_lit pf0 W_arc (RArc RString) (LConst 0) = LPanic PInvalidConvert.
@@ -227,8 +229,9 @@ Definition W_const_ref : lschema :=
        [(RVec RI32, LList [LInt 1; LInt 2]); (RSet RFastStr, LList [LString [x61]]); (RMap RFastStr RI32, LMap [(LString [x6b], LInt 1)])].
 Example container_const_reference_cases :
   well_typed_lit pf0 W_const_ref (erase (RSet RFastStr)) (LConst 1) = true /\
-  pclass_top W_const_ref (LConst 1) (item_cty (RSet RFastStr)) = Some PCPathConvert /\
   if const_inline_present then
+    pclass_top W_const_ref (LConst 1) (item_cty (RSet RFastStr)) = None /\
+    pclass_top W_const_ref (LList [LConst 0; LList []]) (item_cty (RVec (RVec RI32))) = None /\
     default_val_lit pf0 W_const_ref (RVec RI32) (LConst 0) = LOk (GList [GI32 1; GI32 2], false) /\
     default_val_lit pf0 W_const_ref (RSet RFastStr) (LConst 1) = LOk (GSet [GBytes [x61]], false) /\
     default_val_lit pf0 W_const_ref (RBTreeSet RFastStr) (LConst 1) = LOk (GSet [GBytes [x61]], false) /\
@@ -236,6 +239,7 @@ Example container_const_reference_cases :
     default_val_lit pf0 W_const_ref (RPath 0) (LConst 0) = LOk (GList [GI32 1; GI32 2], false) /\
     default_val_lit pf0 W_const_ref (RVec (RVec RI32)) (LList [LConst 0; LList []]) = LOk (GList [GList [GI32 1; GI32 2]; GList []], false)
   else
+    pclass_top W_const_ref (LConst 1) (item_cty (RSet RFastStr)) = Some PCPathConvert /\
     default_val_lit pf0 W_const_ref (RVec RI32) (LConst 0) = LPanic PInvalidConvert /\
     default_val_lit pf0 W_const_ref (RSet RFastStr) (LConst 1) = LPanic PInvalidConvert /\
     default_val_lit pf0 W_const_ref (RMap RFastStr RI32) (LConst 2) = LPanic PInvalidConvert.
@@ -285,39 +289,41 @@ Proof. vm_compute. repeat split; reflexivity. Qed.
 (* the two readings of each case, as implications (one of each pair is vacuous in a given tree) *)
 Lemma arc_field_default_refuted : arc_ok = false ->
   well_typed_lit pf0 W_arc (erase (RArc (RPath 0))) (LMap [(LString [x6e], LInt 1)]) = true /\
+  pclass_top W_arc (LMap [(LString [x6e], LInt 1)]) (item_cty (RArc (RPath 0))) = Some PCNoArm /\
   default_val_lit pf0 W_arc (RArc (RPath 0)) (LMap [(LString [x6e], LInt 1)]) = LPanic PUnexpectedLiteral /\
   default_val_lit pf0 W_arc (RArc RString) (LString [x61]) = LPanic PUnexpectedLiteral /\
   default_val_lit pf0 W_arc (RArc RString) (LConst 0) = LPanic PInvalidConvert.
-Proof.
-  intros H. pose proof arc_default_cases as E. rewrite H in E. exact (conj (proj1 E) (proj2 (proj2 E))).
-Qed.
+Proof. intros H. pose proof arc_default_cases as E. rewrite H in E. exact E. Qed.
 
 Lemma arc_field_default_repaired : arc_ok = true ->
+  pclass_top W_arc (LMap [(LString [x6e], LInt 1)]) (item_cty (RArc (RPath 0))) = None /\
+  pclass_top W_arc (LConst 0) (item_cty (RArc RString)) = None /\
   default_val_lit pf0 W_arc (RArc (RPath 0)) (LMap [(LString [x6e], LInt 1)]) = LOk (GStruct [(2, GI32 1)] [], false) /\
   default_val_lit pf0 W_arc (RArc RString) (LString [x61]) = LOk (GBytes [x61], false) /\
   default_val_lit pf0 W_arc (RArc RString) (LConst 0) = LOk (GBytes [x6b], false) /\
   default_val_lit pf0 W_arc (RVec (RArc (RPath 0))) (LList [LMap [(LString [x6e], LInt 4)]]) = LOk (GList [GStruct [(2, GI32 4)] []], false) /\
   default_val_lit pf0 W_arc (RMap RFastStr (RArc (RPath 0))) (LMap [(LString [x61], LMap [(LString [x6e], LInt 5)])])
     = LOk (GMap [(GBytes [x61], GStruct [(2, GI32 5)] [])], false).
-Proof. intros H. pose proof arc_default_cases as E. rewrite H in E. exact (proj2 (proj2 E)). Qed.
+Proof. intros H. pose proof arc_default_cases as E. rewrite H in E. exact (proj2 E). Qed.
 
 Lemma container_const_reference_refuted : const_inline_present = false ->
   well_typed_lit pf0 W_const_ref (erase (RSet RFastStr)) (LConst 1) = true /\
+  pclass_top W_const_ref (LConst 1) (item_cty (RSet RFastStr)) = Some PCPathConvert /\
   default_val_lit pf0 W_const_ref (RVec RI32) (LConst 0) = LPanic PInvalidConvert /\
   default_val_lit pf0 W_const_ref (RSet RFastStr) (LConst 1) = LPanic PInvalidConvert /\
   default_val_lit pf0 W_const_ref (RMap RFastStr RI32) (LConst 2) = LPanic PInvalidConvert.
-Proof.
-  intros H. pose proof container_const_reference_cases as E. rewrite H in E. exact (conj (proj1 E) (proj2 (proj2 E))).
-Qed.
+Proof. intros H. pose proof container_const_reference_cases as E. rewrite H in E. exact E. Qed.
 
 Lemma container_const_reference_repaired : const_inline_present = true ->
+  pclass_top W_const_ref (LConst 1) (item_cty (RSet RFastStr)) = None /\
+  pclass_top W_const_ref (LList [LConst 0; LList []]) (item_cty (RVec (RVec RI32))) = None /\
   default_val_lit pf0 W_const_ref (RVec RI32) (LConst 0) = LOk (GList [GI32 1; GI32 2], false) /\
   default_val_lit pf0 W_const_ref (RSet RFastStr) (LConst 1) = LOk (GSet [GBytes [x61]], false) /\
   default_val_lit pf0 W_const_ref (RBTreeSet RFastStr) (LConst 1) = LOk (GSet [GBytes [x61]], false) /\
   default_val_lit pf0 W_const_ref (RMap RFastStr RI32) (LConst 2) = LOk (GMap [(GBytes [x6b], GI32 1)], false) /\
   default_val_lit pf0 W_const_ref (RPath 0) (LConst 0) = LOk (GList [GI32 1; GI32 2], false) /\
   default_val_lit pf0 W_const_ref (RVec (RVec RI32)) (LList [LConst 0; LList []]) = LOk (GList [GList [GI32 1; GI32 2]; GList []], false).
-Proof. intros H. pose proof container_const_reference_cases as E. rewrite H in E. exact (proj2 (proj2 E)). Qed.
+Proof. intros H. pose proof container_const_reference_cases as E. rewrite H in E. exact (proj2 E). Qed.
 
 Lemma double_sign_run_refuted : double_sign_run_ok = false ->
   well_typed_lit pf0 (mkLS [] []) TyDouble (LFloat [x2d; x2b; x31; x2e; x35]) = true /\
@@ -349,26 +355,58 @@ Lemma double_exponent_repaired : double_exponent_ok = true ->
   pclass_top (mkLS [] []) (LFloat [x31; x2e; x35; x65; x2d; x2d; x33]) (item_cty RF64) = None.
 Proof. intros H. pose proof double_exponent_cases as E. rewrite H in E. exact (proj2 (proj2 (proj2 E))). Qed.
 
-(* ---------- witnesses: what panics on a well-typed literal whatever the form, one per remaining class ---------- *)
-(* no arm: a string at `binary` with rust_type = "vec" *)
-Example no_arm_refuted :
+(* string-at-bytesvec: a string default on a `binary` field with pilota.rust_type = "vec" *)
+Example string_at_bytesvec_cases :
+  well_typed_lit pf0 (mkLS [] []) (erase RBytesVec) (LString [x61]) = true /\
+  if string_at_bytesvec_ok then
+    default_val_lit pf0 (mkLS [] []) RBytesVec (LString [x61]) = LOk (GBytes [x61], false) /\
+    default_val_lit pf0 (mkLS [] []) RBytesVec (LString [x5c; x6e; x22]) = LOk (GBytes [x0a; x22], false) /\
+    pclass_top (mkLS [] []) (LString [x61]) (item_cty RBytesVec) = None
+  else
+    default_val_lit pf0 (mkLS [] []) RBytesVec (LString [x61]) = LPanic PUnexpectedLiteral /\
+    pclass_top (mkLS [] []) (LString [x61]) (item_cty RBytesVec) = Some PCNoArm.
+Proof. vm_compute. repeat split; reflexivity. Qed.
+Lemma string_at_bytesvec_refuted : string_at_bytesvec_ok = false ->
   well_typed_lit pf0 (mkLS [] []) (erase RBytesVec) (LString [x61]) = true /\
   default_val_lit pf0 (mkLS [] []) RBytesVec (LString [x61]) = LPanic PUnexpectedLiteral /\
   pclass_top (mkLS [] []) (LString [x61]) (item_cty RBytesVec) = Some PCNoArm.
-Proof. vm_compute. repeat split; reflexivity. Qed.
+Proof. intros H. pose proof string_at_bytesvec_cases as E. rewrite H in E. exact E. Qed.
+Lemma string_at_bytesvec_repaired : string_at_bytesvec_ok = true ->
+  default_val_lit pf0 (mkLS [] []) RBytesVec (LString [x61]) = LOk (GBytes [x61], false) /\
+  default_val_lit pf0 (mkLS [] []) RBytesVec (LString [x5c; x6e; x22]) = LOk (GBytes [x0a; x22], false) /\
+  pclass_top (mkLS [] []) (LString [x61]) (item_cty RBytesVec) = None.
+Proof. intros H. pose proof string_at_bytesvec_cases as E. rewrite H in E. exact (proj2 E). Qed.
 
+(* map-key-rvalue: a map literal as a map KEY (map<map<i8,i8>, i8> with rust_type = "btree": a BTreeMap is Ord) *)
+Example map_key_cases :
+  well_typed_lit pf0 (mkLS [] []) (erase (RBTreeMap (RBTreeMap RI8 RI8) RI8)) (LMap [(LMap [(LInt 1, LInt 2)], LInt 3)]) = true /\
+  if map_key_rvalue then
+    default_val_lit pf0 (mkLS [] []) (RBTreeMap (RBTreeMap RI8 RI8) RI8) (LMap [(LMap [(LInt 1, LInt 2)], LInt 3)])
+      = LOk (GMap [(GMap [(GI8 1, GI8 2)], GI8 3)], false) /\
+    default_val_lit pf0 (mkLS [] []) (RBTreeMap (RBTreeMap RI8 RI8) RI8) (LMap [(LList [], LInt 3)]) = LOk (GMap [(GMap [], GI8 3)], false) /\
+    pclass_top (mkLS [] []) (LMap [(LMap [(LInt 1, LInt 2)], LInt 3)]) (item_cty (RBTreeMap (RBTreeMap RI8 RI8) RI8)) = None
+  else
+    default_val_lit pf0 (mkLS [] []) (RBTreeMap (RBTreeMap RI8 RI8) RI8) (LMap [(LMap [(LInt 1, LInt 2)], LInt 3)]) = LPanic PUnexpectedLiteral /\
+    pclass_top (mkLS [] []) (LMap [(LMap [(LInt 1, LInt 2)], LInt 3)]) (item_cty (RBTreeMap (RBTreeMap RI8 RI8) RI8)) = Some PCNestedMap.
+Proof. vm_compute. repeat split; reflexivity. Qed.
+Lemma map_key_refuted : map_key_rvalue = false ->
+  well_typed_lit pf0 (mkLS [] []) (erase (RBTreeMap (RBTreeMap RI8 RI8) RI8)) (LMap [(LMap [(LInt 1, LInt 2)], LInt 3)]) = true /\
+  default_val_lit pf0 (mkLS [] []) (RBTreeMap (RBTreeMap RI8 RI8) RI8) (LMap [(LMap [(LInt 1, LInt 2)], LInt 3)]) = LPanic PUnexpectedLiteral /\
+  pclass_top (mkLS [] []) (LMap [(LMap [(LInt 1, LInt 2)], LInt 3)]) (item_cty (RBTreeMap (RBTreeMap RI8 RI8) RI8)) = Some PCNestedMap.
+Proof. intros H. pose proof map_key_cases as E. rewrite H in E. exact E. Qed.
+Lemma map_key_repaired : map_key_rvalue = true ->
+  default_val_lit pf0 (mkLS [] []) (RBTreeMap (RBTreeMap RI8 RI8) RI8) (LMap [(LMap [(LInt 1, LInt 2)], LInt 3)])
+    = LOk (GMap [(GMap [(GI8 1, GI8 2)], GI8 3)], false) /\
+  default_val_lit pf0 (mkLS [] []) (RBTreeMap (RBTreeMap RI8 RI8) RI8) (LMap [(LList [], LInt 3)]) = LOk (GMap [(GMap [], GI8 3)], false) /\
+  pclass_top (mkLS [] []) (LMap [(LMap [(LInt 1, LInt 2)], LInt 3)]) (item_cty (RBTreeMap (RBTreeMap RI8 RI8) RI8)) = None.
+Proof. intros H. pose proof map_key_cases as E. rewrite H in E. exact (proj2 E). Qed.
+
+(* ---------- the class that is open whatever the flags: a witness that it does panic on a well-typed literal ---------- *)
 (* path convert: a const of a typedef type used at the aliased type *)
 Example path_convert_refuted :
   well_typed_lit pf0 (mkLS [INewType RI32] [(RPath 0, LInt 1)]) (erase RI32) (LConst 0) = true /\
   default_val_lit pf0 (mkLS [INewType RI32] [(RPath 0, LInt 1)]) RI32 (LConst 0) = LPanic PInvalidConvert /\
   pclass_top (mkLS [INewType RI32] [(RPath 0, LInt 1)]) (LConst 0) (item_cty RI32) = Some PCPathConvert.
-Proof. vm_compute. repeat split; reflexivity. Qed.
-
-(* nested map: what is left is a map literal where only lit_into_ty looks: a map KEY (no Rust map is hashable anyway) *)
-Example map_key_refuted :
-  well_typed_lit pf0 (mkLS [] []) (erase (RMap (RMap RI8 RI8) RI8)) (LMap [(LMap [(LInt 1, LInt 2)], LInt 3)]) = true /\
-  default_val_lit pf0 (mkLS [] []) (RMap (RMap RI8 RI8) RI8) (LMap [(LMap [(LInt 1, LInt 2)], LInt 3)]) = LPanic PUnexpectedLiteral /\
-  pclass_top (mkLS [] []) (LMap [(LMap [(LInt 1, LInt 2)], LInt 3)]) (item_cty (RMap (RMap RI8 RI8) RI8)) = Some PCNestedMap.
 Proof. vm_compute. repeat split; reflexivity. Qed.
 
 (* ---------- non-vacuity: a schema with defaults of every kind satisfies the hypotheses ---------- *)
@@ -391,8 +429,20 @@ Definition S_ex : lschema := mkLS
              mkLF [x70] 11 Optional (RPath 2) (Some (LInt (-2)));
              mkLF [x6f] 12 Required RBool (Some (LInt 3));
              mkLF [x6e] 13 Optional RString (Some (LString [x27]));
-             mkLF [x6d] 14 Optional (RPath 0) (Some (LConst 1))] false false ]                    (* 4: Dflt *)
-  [ (RFastStr, LString [x68; x5c; x6e; x69]); (RPath 0, LMember 0 2) ].
+             mkLF [x6d] 14 Optional (RPath 0) (Some (LConst 1));
+             (* the repaired shapes: Arc-wrapped targets, references to consts of container type, -+x and e--x doubles *)
+             mkLF [x6c] 15 Optional (RArc (RPath 1)) (Some (LMap [(LString [x61], LInt 4)]));
+             mkLF [x6b] 16 Optional (RArc RString) (Some (LConst 0));
+             mkLF [x6a] 17 Optional (RVec (RArc (RPath 1))) (Some (LList [LMap [(LString [x61], LInt 6)]]));
+             mkLF [x69] 18 Optional (RVec RI32) (Some (LConst 2));
+             mkLF [x68] 19 Optional (RBTreeSet RFastStr) (Some (LConst 3));
+             mkLF [x67] 20 Optional (RVec (RVec RI32)) (Some (LConst 4));
+             mkLF [x66] 21 Optional RF64 (Some (LFloat [x2d; x2b; x31; x2e; x35]));
+             mkLF [x65] 22 Optional RF64 (Some (LFloat [x31; x2e; x35; x65; x2d; x2d; x33]));
+             mkLF [x64] 23 Optional (RArc (RPath 0)) (Some (LMember 0 1))] false false ]           (* 4: Dflt *)
+  [ (RFastStr, LString [x68; x5c; x6e; x69]); (RPath 0, LMember 0 2);
+    (RVec RI32, LList [LInt 1; LInt 2]); (RSet RFastStr, LList [LString [x61]]);
+    (RVec (RVec RI32), LList [LConst 2; LList [LInt 3]]) ].
 
 (* an enum-typed const used as a number: `(K.inner() as i32)` *)
 Example enum_const_at_int :
@@ -416,7 +466,16 @@ Example literal_meaning_nonvacuous :
                    (11, GEnum (-2));
                    (12, GBool true);
                    (13, GBytes [x27]);
-                   (14, GEnum 5)] []) /\
+                   (14, GEnum 5);
+                   (15, GStruct [(1, GI32 4)] []);
+                   (16, GBytes [x68; x0a; x69]);
+                   (17, GList [GStruct [(1, GI32 6)] []]);
+                   (18, GList [GI32 1; GI32 2]);
+                   (19, GSet [GBytes [x61]]);
+                   (20, GList [GList [GI32 1; GI32 2]; GList [GI32 3]]);
+                   (21, GDouble 13832806255468478464);
+                   (22, GDouble 4654311885213007872);
+                   (23, GEnum 1)] []) /\
   expected_default pf0 S_ex 4 = default_of (proj pf0 S_ex) (TyRef 4).
 Proof.
   assert (H1 : class_free_schema S_ex = true) by (vm_compute; reflexivity).
